@@ -13,8 +13,12 @@ open ScionVerif.Generated.Comb
 
 /-! ## 1. never panics -/
 
-/-- **Totality, all inputs.**  `combine` reaches none of the panic sites of combinator.rs / graph.rs
-(`expect`, `unwrap`, slice, unsigned subtraction, `try_push` + `panic!`) — whatever the segments are. -/
+/-- **Totality, all inputs.**  `combine` reaches none of the 8 *modelled* panic sites (`Site`: weight
+subtraction, `with_capacity` subtraction, peer-index `expect`, `last_ia().expect`, slice range,
+`try_push` + `panic!`, expiry conversion `expect`, view `expect`) — whatever the segments are.
+Not `Site`s, hence not covered by this theorem: the two `unwrap()`s of `has_loops` and the two
+`expect`s of `StandardPathView::expiration` behind `ScionPath::new` (see the header of
+`Model/Combinator.lean` for why they cannot fire; the harness oracle `C19:panic` covers them). -/
 theorem total (src dst : Nat) (cores nonCores : List Seg) :
     ∃ ps, combine src dst cores nonCores = .ok ps := by
   by_cases h : src = dst
@@ -152,10 +156,13 @@ example : (combine 1 3 [] [upSeg]).toOption.map (List.map fun p => [p.src, p.dst
 
 /-! ## 4. segments that cannot contribute are ignored -/
 
-/-- **Garbage independence, all inputs.**  Add any segments `badCores`, `badNonCores` (not already
-present) to a segment set.  If no complete candidate solution of the enlarged search uses an edge of an
-added segment — they "contribute no edge chain" from `src` to `dst` — then the result (paths, their
-order, their bytes and metadata) is exactly the result without them. -/
+/-- **Garbage independence, all inputs — for segments that form no candidate chain.**  Add any segments
+`badCores`, `badNonCores` (not already present) to a segment set.  If no complete candidate solution of
+the enlarged search uses an edge of an added segment — they "contribute no edge chain" from `src` to
+`dst` — then the result (paths, their order, their bytes and metadata) is exactly the result without
+them.  Weaker than the property clause: a segment that *does* form candidates whose path is then
+dropped (more than 63 hop fields, no interface id) or loop-filtered is outside `hunused`; for those the
+clause is checked on the implementation by the oracle `C19:garbage-ignored` of hx_comb. -/
 theorem garbage_independent (src dst : Nat) (cores nonCores badCores badNonCores : List Seg)
     (hbc : ∀ b ∈ badCores, (⟨true, b⟩ : InSeg) ∉ inputSegs cores nonCores)
     (hbn : ∀ b ∈ badNonCores, (⟨false, b⟩ : InSeg) ∉ inputSegs cores nonCores)
